@@ -27,6 +27,15 @@ type pmOp struct {
 	def         any // default (prim only)
 	zeroDef     bool
 	goField     string
+	nullable    bool   // schema carries nullable: true (the Go type is a Nil… / OptNil… wrapper)
+	prop        string // property the findings are reported under ("" = C01)
+}
+
+func (o pmOp) property() string {
+	if o.prop != "" {
+		return o.prop
+	}
+	return "C01"
 }
 
 func elemSchema(elem string) map[string]any {
@@ -51,11 +60,14 @@ func (o pmOp) paramName() string {
 func (o pmOp) schema() map[string]any {
 	switch o.shape {
 	case "arr":
-		return map[string]any{"type": "array", "items": elemSchema(o.elem)}
+		return map[string]any{"type": "array", "items": elemSchema(o.elem), "nullable": o.nullable}
 	case "obj":
-		return map[string]any{"type": "object", "required": []string{"a", "b"}, "properties": map[string]any{"a": elemSchema(o.elem), "b": map[string]any{"type": "string"}}}
+		return map[string]any{"type": "object", "nullable": o.nullable, "required": []string{"a", "b"}, "properties": map[string]any{"a": elemSchema(o.elem), "b": map[string]any{"type": "string"}}}
 	}
 	s := elemSchema(o.elem)
+	if o.nullable {
+		s["nullable"] = true
+	}
 	if o.def != nil {
 		s["default"] = o.def
 	}
@@ -120,6 +132,22 @@ func paramMatrix() []pmOp {
 	add("header", "simple", true, "prim", "arr", "obj")
 	add("cookie", "form", true, "prim")
 	add("cookie", "form", false, "prim", "arr", "obj")
+	return ops
+}
+
+// the same combinations with `nullable: true` on the parameter schema (string and int64 elements): the value
+// sits in a Nil… / OptNil… wrapper, which every encoder and decoder config has to look through
+func paramMatrixNullable(prop string) []pmOp {
+	var ops []pmOp
+	for _, o := range paramMatrix() {
+		// (a nullable array parameter is refused when the templates run: "unexpected nil semantic null")
+		if (o.elem != "string" && o.elem != "int") || o.def != nil || o.shape == "arr" {
+			continue
+		}
+		o.nullable, o.prop = true, prop
+		o.name = fmt.Sprintf("nl%d", len(ops))
+		ops = append(ops, o)
+	}
 	return ops
 }
 
@@ -232,6 +260,11 @@ func c01(r *lp.Run) {
 	}
 	defer os.RemoveAll(mod.Dir)
 	ops := paramMatrix()
+	nlOps := paramMatrixNullable("")
+	nlPkg, nlErr := mod.Add("pmnl", []byte(paramMatrixDoc(nlOps)), gen.Options{})
+	if nlErr != nil {
+		r.Fail(lp.PropFail{Property: "C01", What: "the generator refuses the parameter feature-matrix spec with nullable parameter schemas", Input: "nullable parameter matrix", Observed: nlErr.Error(), Expected: "generated package"})
+	}
 	pkg, err := mod.Add("pm", []byte(paramMatrixDoc(ops)), gen.Options{})
 	if err != nil {
 		r.Fail(lp.PropFail{Property: "C01", What: "the generator refuses the parameter feature-matrix spec", Input: "parameter matrix", Observed: err.Error(), Expected: "generated package"})
@@ -274,7 +307,33 @@ func c01(r *lp.Run) {
 			c01ParamCall(r, drv, pkg.Name, oi, o, c)
 		}
 	}
+	if nlPkg != nil {
+		c01RunMatrix(r, rng, drv, nlPkg, nlOps, r.N(6, 30))
+	}
 	c01RunExchange(r, rng, drv, ex)
+}
+
+// c01RunMatrix drives every operation of a parameter-matrix package with n values per element
+func c01RunMatrix(r *lp.Run, rng *lp.Rand, drv *gc.Driver, pkg *gc.Pkg, ops []pmOp, n int) {
+	byID := map[string]gc.OpInfo{}
+	for _, oi := range pkg.Ops {
+		byID[oi.OperationID] = oi
+	}
+	for _, o := range ops {
+		oi, ok := byID[o.name]
+		if !ok || len(oi.Params) != 1 {
+			r.Fail(lp.PropFail{Property: o.property(), What: "operation of the feature matrix is missing from the IR", Input: o.name, Observed: fmt.Sprint(oi), Expected: "one parameter"})
+			continue
+		}
+		o.goField = oi.Params[0].Field
+		calls := c01Values(rng, o, n)
+		if !o.required {
+			calls = append(calls, c01Call{desc: map[string]any{"$absent": true}, text: "<absent>"})
+		}
+		for _, c := range calls {
+			c01ParamCall(r, drv, pkg.Name, oi, o, c)
+		}
+	}
 }
 
 func c01ParamCall(r *lp.Run, drv *gc.Driver, pkgName string, oi gc.OpInfo, o pmOp, c c01Call) {
@@ -287,10 +346,13 @@ func c01ParamCall(r *lp.Run, drv *gc.Driver, pkgName string, oi gc.OpInfo, o pmO
 	if o.def != nil {
 		cfg += "/default"
 	}
+	if o.nullable {
+		cfg += "/nullable"
+	}
 	in := map[string]any{"operation": o.name, "config": cfg, "value": c.text}
 	if ans["error"] != nil || ans["crash"] != nil || ans["driver_panic"] != nil {
 		r.Count("c01 "+cfg+c.text, "driver-error", false)
-		r.Fail(lp.PropFail{Property: "C01", What: "driver failure", Input: in, Observed: fmt.Sprint(ans["error"], ans["crash"], ans["driver_panic"]), Expected: "a call"})
+		r.Fail(lp.PropFail{Property: o.property(), What: "driver failure", Input: in, Observed: fmt.Sprint(ans["error"], ans["crash"], ans["driver_panic"]), Expected: "a call"})
 		return
 	}
 	given, _ := ans["given"].(map[string]any)
@@ -325,7 +387,7 @@ func c01ParamCall(r *lp.Run, drv *gc.Driver, pkgName string, oi gc.OpInfo, o pmO
 		if wire != nil {
 			in2["wire"] = fmt.Sprint(wire["method"], " ", wire["uri"], " ", wire["header"])
 		}
-		r.Fail(lp.PropFail{Property: "C01", What: what, Input: in2, Observed: obs, Expected: exp})
+		r.Fail(lp.PropFail{Property: o.property(), What: what, Input: in2, Observed: obs, Expected: exp})
 	}
 	switch branch {
 	case "client-panic":
@@ -354,7 +416,7 @@ func c01ParamCall(r *lp.Run, drv *gc.Driver, pkgName string, oi gc.OpInfo, o pmO
 			cls = "K4"
 		}
 		if cls != "" {
-			r.Known(lp.PropFail{Property: "C01", Class: cls, What: "the handler receives a different parameter value than the caller supplied", Input: in, Observed: fmt.Sprint(srv["params"]), Expected: want})
+			r.Known(lp.PropFail{Property: o.property(), Class: cls, What: "the handler receives a different parameter value than the caller supplied", Input: in, Observed: fmt.Sprint(srv["params"]), Expected: want})
 		} else {
 			fail("the handler receives a different parameter value than the caller supplied", fmt.Sprint(srv["params"]), want+" (or an error on either side)")
 		}
